@@ -179,7 +179,12 @@ impl Service {
                     old_instance.ephemeral.clone_into(&mut instance.ephemeral);
                     old_instance.weight.clone_into(&mut instance.weight);
                     instance.metadata = old_instance.metadata.clone();
-                    rtype = UpdateInstanceType::UpdateTime;
+                    // a heartbeat that brings the instance back to healthy changes the instance
+                    // list: subscribers and the other nodes must see it at once (UpdateValue),
+                    // only a heartbeat that changes nothing is a pure time refresh
+                    if old_instance.healthy == instance.healthy {
+                        rtype = UpdateInstanceType::UpdateTime;
+                    }
                 }
             }
             mark_add_perpetual_instance = !instance.ephemeral && old_instance.ephemeral;
